@@ -46,6 +46,10 @@ def trees():
     # payload is a lazy iterable because no materialization followed the transfer then (the hook contract allows that)
     m11 = ("mat", ("proc", ("xfer", selx, "it2")), "m11")
     out["mat-of-processed"] = (m11, {"A": ("sort", m11, ((A_, False), (B_, True))), "B": ("xfer", ("dedup", m11), "it1")}, True)
+    # a statically empty materialization (zero-length window) over a transfer that is not: the transfer upstream still runs when the
+    # tree is processed, so the node must end up with a payload or every later process() runs it again
+    m12 = ("mat", ("slice", ("xfer", selx, "it2"), 0, 0), "m12")
+    out["trivial-mat-over-transfer"] = (m12, {"A": ("sort", m12, ((A_, False), (B_, True))), "B": ("xfer", ("dedup", m12), "it1")}, True)
     m6 = ("mat", ("proj", X, ("a", "b")), "m6")
     out["chain-shared"] = (m6, {"A": ("chain", m6, m6), "B": ("chain", ("sel", m6, ("gt", A_, ("lit", "$k"))), m6)}, False)
     return out
@@ -131,7 +135,8 @@ def run_history(tname, hist, ctx, valfn, bind=None):
     proc = symproc.make_processor(db, log)
     # payload offered by attach actions: rows P (distinct symbolic values)
     mcols = sorted(t.qualified_name for t in mnode.columns)
-    prow = [{c: valfn("P", c, i) for c in mcols} for i in range(1)]
+    # (a payload handed to attach_payload has to respect the node's static row bounds: none for a statically empty node)
+    prow = [{c: valfn("P", c, i) for c in mcols} for i in range(0 if mnode.max_rows == 0 else 1)]
     if isinstance(mnode.engine, sql.Engine):
         ptab = relmodel.Tab([relmodel.Slot(z3.BoolVal(True), None, {c: zint(r[c]) for c in mcols}) for r in prow], mcols, False)
         P = db.table_payload("Ptable", [env.tags[c] for c in mcols], ptab)
